@@ -34,9 +34,14 @@ def run_family(ck, fname, scs, propfn, keyprefix, what, hyp=False):
         # domain (outside it a runner removal may void an order before its placement is executed)
         # bit 2: side condition of the acknowledgement-time theorem (C07_run_ack_after_latency), which has no domain restriction: every scenario
         bad = [i for i, h in enumerate(hyps) if h % 4 == 2]
-        bad_ack = [i for i, h in enumerate(hyps) if h < 4]
+        bad_ack = [i for i, h in enumerate(hyps) if h % 8 < 4]
+        bad_keys = [i for i, h in enumerate(hyps) if h < 8]     # bit 3: every (market, name) used once by the script, names < 1000 (names theorem, C13)
         hd = {"in_theorem_domain": sum(1 for h in hyps if h % 4 >= 2), "in_domain_and_guard_holds": sum(1 for h in hyps if h % 4 == 3),
-              "guard_holds_any": sum(1 for h in hyps if h % 2 == 1), "ack_guard_holds": len(hyps) - len(bad_ack)}
+              "guard_holds_any": sum(1 for h in hyps if h % 2 == 1), "ack_guard_holds": len(hyps) - len(bad_ack), "names_used_once": len(hyps) - len(bad_keys)}
+        hd_keys = len(hyps) - len(bad_keys)
+        if bad_keys:
+            ck.broken.append({"kind": "hypothesis", "what": "keys_ok_b (hypothesis of C13_order_names_unique_in_every_reachable_state) is false on scenario(s) of family " + fname,
+                              "first": bad_keys[:3], "scenarios": [{"index": i, "scenario": scs[i]} for i in bad_keys[:2]]})
         if bad_ack:
             ck.broken.append({"kind": "hypothesis", "what": "run_ack_guard_b (hypothesis of C07_run_ack_after_latency) is false on scenario(s) of family " + fname,
                               "first": bad_ack[:3], "scenarios": [{"index": i, "scenario": scs[i]} for i in bad_ack[:2]]})
